@@ -32,8 +32,9 @@ func WitnessF19() bool {
 	return o1.Kind == "err" && o1.Code == 404 && o2.Kind == "sel"
 }
 
-// WitnessF03: CurlyRouter ignores the regex of a root-path variable: /123 is a 404 although the second root claims it.
-func WitnessF03() bool {
+// RegressionF03 (finding repaired by 19aa57d): true when CurlyRouter ignores the regex of a root-path
+// variable again: /123 is a 404 although the second root claims it.
+func RegressionF03() bool {
 	a := Service{ID: 0, Root: "/{name:[a-z]+}", Routes: []RouteDecl{simpleRoute(0, "GET", "")}}
 	b := Service{ID: 1, Root: "/{id:[0-9]+}", Routes: []RouteDecl{simpleRoute(1, "GET", "")}}
 	c, err := Build(Config{Router: "curly", Services: []Service{a, b}})
@@ -44,8 +45,9 @@ func WitnessF03() bool {
 	return o.Kind == "err" && o.Code == 404
 }
 
-// WitnessF04: a chunked POST with a consumed Content-Type and an unsatisfiable Accept is answered 415, not 406.
-func WitnessF04() bool {
+// RegressionF04 (finding repaired by e9138e1): true when a chunked POST with a consumed Content-Type and
+// an unsatisfiable Accept is answered 415 again instead of 406.
+func RegressionF04() bool {
 	r := simpleRoute(0, "POST", "")
 	r.Consumes, r.Produces = []string{"application/json"}, []string{"application/json"}
 	c, err := Build(Config{Router: "curly", Services: []Service{{ID: 0, Root: "/u", Routes: []RouteDecl{r}}}})
